@@ -16,7 +16,7 @@ CHUNK = 1
 def RULE(tier):
     q = tier == "quick"
     return ("full enumeration: intToB64/b64ToInt for every i < 2^%d x l in 1..6 plus 64^k-1, 64^k, 64^k+1 (k<=22), 2^64, 2^128+-1; "
-            "codeB64ToB2/codeB2ToB64 for every Base64 string of length <= %d (quick: plus every length-4 string starting with A, B or _); nabSextets for every byte string of length <= %d x "
+            "codeB64ToB2/codeB2ToB64 for every Base64 string of length <= %d (quick: plus every length-4 string starting with A, B or _); nabSextets for every sextet count 3..12 with the last needed byte taking all 256 values over 4 fill patterns and 0-2 surplus bytes, and for every byte string of length <= %d x "
             "every admissible l. Every case is a distinct input; outcomes are compared with arithmetic written from the statement."
             % (18 if q else 22, 3 if q else 4, 2 if q else 3))
 
@@ -41,6 +41,8 @@ def jobs(tier):
     maxb = 2 if q else 3
     for b0 in range(0, 256, 16):
         js.append(("nab", b0, b0 + 16, maxb))
+    for l in range(3, 13):      # every sextet count mod 4, beyond what exhaustive byte strings reach
+        js.append(("nabwide", l))
     return js
 
 
@@ -170,6 +172,14 @@ def run_job(job, tier, seed):
                 l += 1
             if len(b) < maxb:
                 stack.extend(b + bytes([x]) for x in range(256))
+    elif kind == "nabwide":
+        l = job[1]
+        n = -(-l * 3 // 4)
+        for fill in (0x00, 0xFF, 0xA5, 0x5A):
+            for last in range(256):
+                for extra in (b"", b"\x00", b"\xff\xff"):      # bytes beyond the l sextets must not matter
+                    b = bytes([fill] * (n - 1) + [last]) + extra
+                    do(("nab", list(b), l), sample=(last == 0xA5 and not extra))
     acc.r.obs.add(hash(kind))
     return acc.result()
 
